@@ -2157,7 +2157,9 @@ impl<T: Storage> Raft<T> {
                     return Ok(());
                 }
 
-                if self.prs().is_singleton() {
+                // The lone voter answers without a heartbeat round only if it is this
+                // node: a leader that was removed or demoted is not part of the quorum.
+                if self.prs().is_singleton() && self.promotable {
                     let read_index = self.raft_log.committed;
                     if let Some(m) = self.handle_ready_read_index(m, read_index) {
                         self.r.send(m, &mut self.msgs);
